@@ -147,3 +147,10 @@ Fixpoint link_delivered (n : Z) (l : link) (ins : list link_in) : list Z :=
 (* wire vector observed by the differential: tx, ready, pulse, sample, desync, valid, v *)
 Definition link_obs (l : link) : list Z :=
   [s_tx (l_ser l); s_ready (l_ser l); cgr_pulse (l_cgr l); cgr_sample (l_cgr l); d_desync (l_des l); d_valid (l_des l); d_v (l_des l)].
+
+(* per-clock events of a link run, as seen on wires: (clock_desync is high after this edge = a frame completed at it, consumer's ready) *)
+Fixpoint link_events (n : Z) (l : link) (ins : list link_in) : list (bool * Z) :=
+  match ins with
+  | [] => []
+  | i :: r => let l' := link_step n l i in (d_desync (l_des l') =? 1, li_ready i) :: link_events n l' r
+  end.
